@@ -202,7 +202,8 @@ def main(argv):
         else:
             new_viol.append(v)
 
-    rep_dir = os.path.join(VERIF, 'reports', prop)
+    scratch = bool(os.environ.get('VERIF_SCRATCH'))
+    rep_dir = os.path.join(os.environ.get('VERIF_SCRATCH_REPORTS', os.path.join(VERIF, 'reports')), prop)
     if os.path.isdir(rep_dir) and not args.replay:
         shutil.rmtree(rep_dir, ignore_errors=True)
     replay_hit = None
@@ -276,7 +277,7 @@ def main(argv):
         'wall_s': round(time.time() - t0, 2),
         'violations': len(new_viol),
     }
-    if not args.replay:
+    if not args.replay and not scratch:
         os.makedirs(os.path.join(VERIF, 'evidence'), exist_ok=True)
         with open(os.path.join(VERIF, 'evidence', prop + '.json'), 'w') as f:
             json.dump(ev, f, indent=1, sort_keys=True)
